@@ -478,6 +478,14 @@ def rule_r4(chk, p, t):
     r.guard(nsa.qualname, f_a)
 
 
+def rule_r5(chk, p, t):
+    # the solar-radiation-pressure term is scaled by the visible fraction of the Sun's disc: its case structure
+    # (Montenbruck 3.85-3.87) is part of the force model - shared instance of C14.R5
+    from rules import C14
+
+    C14.rule_r5(chk, p, t, rid="C13.R5")
+
+
 def run(chk, p, t):
     chk.explanation = (
         "Static decision of structural necessary conditions of C13: (R1) each perturbation is defined under its own "
@@ -489,7 +497,7 @@ def run(chk, p, t):
         "value of any formula, the Chebyshev ephemerides, continuity of Sun / Moon positions."
     )
     chk.assumptions += ["the reference forms of R4 are transcriptions of the equations cited in the module docstrings (Montenbruck & Gill 3.29-3.33, 3.75; Battin's third-body form)"]
-    for fn in (rule_r1, rule_r2, rule_r3, rule_r4):
+    for fn in (rule_r1, rule_r2, rule_r3, rule_r4, rule_r5):
         rid = "C13.R" + fn.__name__[-1]
         if not chk.wants(rid):
             continue
